@@ -13,6 +13,16 @@ Three searches, one oracle (CPython executes the very text Griffe visits, then `
    in between).
 3. "prop": Hypothesis-generated property groups (getter, setters/deleters in any order and multiplicity, two properties
    interleaved, unrelated members in between, nested classes).
+4. "deco": Hypothesis-generated modules mixing sync and async definitions under the decorators Griffe knows (property,
+   cached_property, staticmethod, classmethod, cache, lru_cache, abstractmethod, stacks of them) at module and class level:
+   every definition CPython binds to a callable must be a Function with CPython's signature — in particular the ones that
+   *follow* a decorated (async) definition, so that state carried from one definition to the next is observed inside one
+   self-contained case.
+
+Every annotated signature is additionally rendered with string-literal annotations in a module without PEP 563 (CPython then
+reports the string's content); every lambda Griffe reports is also re-evaluated from its rendered text and must have the
+signature of CPython's lambda. Failures are re-checked alone in a process forked before the shard visited anything: only
+failures that reproduce there are reported with their case (see _Pristine).
 """
 
 from __future__ import annotations
@@ -33,7 +43,9 @@ RULE = (
     "(+ 3 lambda renderings when un-annotated), Hypothesis-sampled shapes above the bound; non-trivial = >=2 parameter kinds "
     "or a default next to a `/` or `*` marker; distinct = distinct (parameter-list text, rendering). "
     "ovl: Hypothesis overload groups; non-trivial = some implementation with >=2 overloads, or >=2 groups interleaved in one scope; "
-    "prop: Hypothesis property groups; non-trivial = a property with a setter or deleter; distinct = distinct module text"
+    "prop: Hypothesis property groups; non-trivial = a property with a setter or deleter; "
+    "deco: Hypothesis modules of decorated sync/async definitions; non-trivial = an async def that follows a decorated async def; "
+    "distinct = distinct module text"
 )
 ASSUMPTIONS = [
     "CPython 3.12 inspect.signature / typing.get_overloads / property objects are the reference; annotations are compared as "
@@ -44,17 +56,25 @@ ASSUMPTIONS = [
     "groups without implementation are generated but nothing is demanded of them beyond not being attached elsewhere",
     "property groups: setters/deleters are defined under the property's own name in the same class body, after the getter",
     "annotation / default texts come from small position-indexed pools of simple expressions (expression rendering itself is C03's subject)",
+    "string annotations are compared in a module without PEP 563, where CPython reports the content of the string; "
+    "a lambda's reported text is compared by evaluating it (its defaults are literals) and taking inspect.signature",
+    "definitions CPython binds to a property-like descriptor (property, cached_property) are modelled as attributes by Griffe and carry no signature to compare",
+    "a failure counts with its case only if it reproduces when that case is checked alone in a pristine forked process; failures that "
+    "depend on earlier visits are reported (once) only when the shard found no self-contained failure",
 ]
 EXHAUSTIVE = True
 EXHAUSTIVE_NOTE = {
-    "quick": "all 1085 parameter-list shapes with <=5 parameters x all annotation masks (53,010 annotated cases), 5 def renderings each, "
-    "3 lambda renderings per un-annotated shape; overload/property groups and larger signatures are sampled (not exhaustive)",
+    "quick": "all 1085 parameter-list shapes with <=5 parameters x all annotation masks (53,010 cases), 5 def renderings each plus the "
+    "string-annotation rendering for annotated cases, 3 lambda renderings per un-annotated shape; overload/property/decorated groups and "
+    "larger signatures are sampled (not exhaustive)",
     "thorough": "all 12171 parameter-list shapes with <=8 parameters; all annotation masks for <=7 parameters (1,039,378 annotated cases), 8 seeded masks "
-    "per shape for 8 parameters; 5 def renderings each, 3 lambda renderings per un-annotated shape; groups and larger signatures are sampled (not exhaustive)",
+    "per shape for 8 parameters; 5 def renderings each plus the string-annotation rendering, 3 lambda renderings per un-annotated shape; "
+    "groups and larger signatures are sampled (not exhaustive)",
 }
 BUDGET_S = {"quick": 85.0, "thorough": 1500.0}
 
 DEF_RENDERINGS = ("def", "async-def", "method", "staticmethod", "classmethod")
+QUOTED_RENDERING = "def-string-annotations"
 LAMBDA_RENDERINGS = ("lambda-attr", "lambda-class-attr", "lambda-default")
 
 
@@ -64,7 +84,7 @@ def cpython_exec(code: str, name: str = "c02_case") -> dict:
     typing.clear_overloads()
     ns: dict = {"__name__": name}
     try:
-        exec(compile(code, f"<{name}>", "exec"), ns)  # noqa: S102
+        exec(compile(code, f"<{name}>", "exec", dont_inherit=True), ns)  # noqa: S102  (dont_inherit: this file's own __future__ flags must not leak)
     except Exception as exc:  # noqa: BLE001
         raise HarnessError(f"generated module does not execute: {exc!r}\n{code}") from exc
     return ns
@@ -122,6 +142,32 @@ def render_sig_module(m: dict) -> tuple[str, bool]:
     return "\n".join(lines) + "\n", lambdas
 
 
+def render_quoted_module(m: dict) -> str:
+    """The same parameter list with every annotation written as a string literal, *without* PEP 563: CPython then reports the
+    string's content, which is what Griffe reports for a string annotation it could parse."""
+    parts = []
+    seen_star = False
+    for i, (name, kind, ann, dflt) in enumerate(S.spec(m)):
+        a = f": {ann!r}" if ann else ""
+        d = "" if dflt is None else (f" = {dflt}" if a else f"={dflt}")
+        if kind == "va":
+            parts.append(f"*{name}{a}")
+            seen_star = True
+        elif kind == "vk":
+            parts.append(f"**{name}{a}")
+        elif kind == "ko":
+            if not seen_star:
+                parts.append("*")
+                seen_star = True
+            parts.append(f"{name}{a}{d}")
+        else:
+            parts.append(f"{name}{a}{d}")
+            if kind == "po" and i == m["po"] - 1:
+                parts.append("/")
+    ret = f" -> {S.RETURN_TEXT!r}" if S.has_return(m) else ""
+    return f"def fq({', '.join(parts)}){ret}: ...\n"
+
+
 def lambda_fails(where: str, what: str, expr, pyfunc) -> list[Fail]:
     from _griffe.expressions import ExprLambda
 
@@ -129,7 +175,24 @@ def lambda_fails(where: str, what: str, expr, pyfunc) -> list[Fail]:
         return [Fail("member", where, f"{what}: expected an ExprLambda, Griffe has {expr!r}")]
     py = S.py_view(inspect.signature(pyfunc), annotations=False)
     g = S.griffe_view(expr.parameters, None, lambda_=True)
-    return S.compare(where, what, g, py, annotations=False)
+    fails = S.compare(where, what, g, py, annotations=False)
+    # the expression *text* Griffe reports must denote the same lambda: evaluate it and compare its signature
+    text = str(expr)
+    try:
+        again = eval(text, {})  # noqa: S307  (generated text: literals only)
+        view = S.py_view(inspect.signature(again), annotations=False)
+    except Exception as exc:  # noqa: BLE001
+        fails.append(Fail("default-expr", f"{where}:text-not-evaluable", f"{what}: Griffe renders the lambda as {text!r}, which does not evaluate: {exc!r}"))
+    else:
+        if view != py:
+            fails.append(
+                Fail(
+                    "default-expr",
+                    f"{where}:text-denotes-other-signature",
+                    f"{what}: Griffe renders the lambda as {text!r} = {inspect.signature(again)}, CPython has {inspect.signature(pyfunc)}",
+                )
+            )
+    return fails
 
 
 def check_sig(m: dict) -> list[Fail]:
@@ -151,6 +214,11 @@ def check_sig(m: dict) -> list[Fail]:
     ]
     for where, gobj, pyf in targets:
         fails += function_fails(where, f"{where} ({ptxt})", gobj, pyf)
+    if m["ann"]:
+        qcode = render_quoted_module(m)
+        qns = cpython_exec(qcode)
+        qmod = griffe_visit(qcode)
+        fails += function_fails("def-string-annotations", qcode.strip(), member(qmod, "fq"), qns["fq"])
     if lambdas:
         la = member(mod, "la")
         cla = cls and member(cls, "la")
@@ -274,6 +342,26 @@ def check_properties(case: dict) -> list[Fail]:
     return fails
 
 
+# ----------------------------------------------------------------------------- 4. decorated definitions, sync / async mixed
+def check_decorated(case: dict) -> list[Fail]:
+    code = G.render_decorated_module(case)
+    ns = cpython_exec(code)
+    mod = griffe_visit(code)
+    fails: list[Fail] = []
+    for scope, name, it in G.decorated_names(case):
+        decos, binds = G.DECORATORS[it["deco"]]
+        if binds == "prop":
+            # CPython binds a property-like descriptor; Griffe models it as an attribute: no signature to compare
+            continue
+        gscope = member(mod, scope) if scope else mod
+        pyobj = ns[scope].__dict__[name] if scope else ns[name]
+        where = ("async-" if it["async"] else "") + "def@" + ("+".join(decos) or "plain")
+        what = f"{scope + '.' if scope else ''}{name}"
+        sub = function_fails(where, what, member(gscope, name) if gscope is not None else None, unwrap(pyobj))
+        fails += [Fail(f.clause, f.kind, f.message + "\n" + code) for f in sub]
+    return fails
+
+
 # ----------------------------------------------------------------------------- entry points
 def check_case(case) -> list[Fail]:
     kind = case.get("kind")
@@ -283,6 +371,8 @@ def check_case(case) -> list[Fail]:
         return check_overloads(case)
     if kind == "prop":
         return check_properties(case)
+    if kind == "deco":
+        return check_decorated(case)
     raise HarnessError(f"unknown case kind {kind!r}")
 
 
@@ -365,16 +455,116 @@ def describe(case):
         nt, labels = _ovl_stats(case["body"])
         code = G.render_overload_module(case)
         return (code if nt else None), sorted(labels) + ["ovl:import=" + G.OVERLOAD_IMPORTS[case["imp"]][1]], {"kind": "ovl", "module": code}
+    if kind == "deco":
+        labels = set()
+        seen_async_prop = seen_async_deco = nt = False
+        for _, _, it in G.decorated_names(case):
+            decos, binds = G.DECORATORS[it["deco"]]
+            if it["async"] and binds != "prop":
+                if seen_async_prop:
+                    labels.add("deco:async-def-after-async-property")
+                    nt = True
+                if seen_async_deco:
+                    labels.add("deco:async-def-after-decorated-async-def")
+                    nt = True
+            if it["async"] and decos:
+                seen_async_deco = True
+                if binds == "prop":
+                    seen_async_prop = True
+            labels.add("deco:" + ("async " if it["async"] else "") + ("+".join(decos) or "plain"))
+        code = G.render_decorated_module(case)
+        return (code if nt else None), sorted(labels), {"kind": "deco", "module": code}
     nt, labels = _prop_stats(case["classes"])
     code = G.render_property_module(case)
     return (code if nt else None), sorted(labels), {"kind": "prop", "module": code}
+
+
+# ----------------------------------------------------------------------------- hermeticity of failures
+class _Pristine:
+    """A child forked at the start of the shard, before this process visited anything. For every failing case it forks a
+    grandchild that re-runs check_case from that pristine state and reports the failing buckets. A failure that does not
+    reproduce there depends on what the shard visited earlier (state leaking between visits); it could not be replayed from
+    its case alone, so it is only reported when the shard has no self-contained failure at all."""
+
+    def __init__(self) -> None:
+        import json
+        import os
+
+        r1, w1 = os.pipe()
+        r2, w2 = os.pipe()
+        self.pid = os.fork()
+        if self.pid == 0:
+            code = 1
+            try:
+                os.close(w1)
+                os.close(r2)
+                with os.fdopen(r1, "r") as rin, os.fdopen(w2, "w") as wout:
+                    for line in rin:
+                        rr, ww = os.pipe()
+                        g = os.fork()
+                        if g == 0:
+                            try:
+                                os.close(rr)
+                                from vp.common.harness import run_check
+
+                                try:
+                                    buckets = sorted({f.bucket for f in run_check(check_case, json.loads(line))})
+                                except BaseException as exc:  # noqa: BLE001
+                                    buckets = ["!error:" + repr(exc)[:200]]
+                                os.write(ww, json.dumps(buckets).encode())
+                            finally:
+                                os._exit(0)
+                        os.close(ww)
+                        data = b""
+                        while chunk := os.read(rr, 65536):
+                            data += chunk
+                        os.close(rr)
+                        os.waitpid(g, 0)
+                        wout.write((data.decode() or "[]") + "\n")
+                        wout.flush()
+                code = 0
+            finally:
+                os._exit(code)
+        os.close(r1)
+        os.close(w2)
+        self.w = os.fdopen(w1, "w")
+        self.r = os.fdopen(r2, "r")
+        self.asked = 0
+
+    def buckets(self, case) -> set | None:
+        import json
+
+        self.asked += 1
+        try:
+            self.w.write(json.dumps(case) + "\n")
+            self.w.flush()
+            line = self.r.readline()
+            return set(json.loads(line)) if line.strip() else None
+        except (OSError, ValueError):
+            return None
+
+    def close(self) -> None:
+        import os
+
+        for fh in (self.w, self.r):
+            try:
+                fh.close()
+            except OSError:
+                pass
+        try:
+            os.waitpid(self.pid, 0)
+        except OSError:
+            pass
+
+
+MAX_CONFIRMATIONS = 400  # per shard
 
 
 def _hyp_strategy(ctx):
     from hypothesis import strategies as st
 
     lo = ctx.scale(6, 9)
-    return st.one_of(G.overload_cases(), G.property_cases(), G.big_sig_cases(lo, ctx.scale(3, 4)))
+    return st.one_of(G.overload_cases(), G.property_cases(), G.decorated_cases(), G.big_sig_cases(lo, ctx.scale(3, 4)))
 
 
 def strategy(ctx):
@@ -398,6 +588,52 @@ def _ann_masks(ctx, m: dict, index: int, all_masks_upto: int) -> list[int]:
 
 
 def run_shard(ctx) -> None:
+    pristine = _Pristine()
+    order_dependent: list = []
+    try:
+        _run_shard(ctx, pristine, order_dependent)
+        if order_dependent and not ctx.res.failures:
+            f, case = order_dependent[0]
+            ctx.fail(
+                Fail(
+                    "history",
+                    f"order-dependent:{f.clause}",
+                    f"{len(order_dependent)} failures of this shard do not reproduce when the case is checked alone in a fresh process "
+                    f"(Griffe's answer depends on what was visited before); first one: {f.message}",
+                ),
+                case,
+            )
+    finally:
+        pristine.close()
+
+
+def _run_shard(ctx, pristine, order_dependent) -> None:
+    from vp.common.harness import run_check
+
+    confirmed: dict = {}  # bucket -> a case that fails this way when checked alone in a fresh process
+
+    def searched_check(case) -> list[Fail]:
+        fails = run_check(check_case, case)
+        if not fails:
+            return fails
+        if pristine.asked < MAX_CONFIRMATIONS:
+            alone = pristine.buckets(case)
+            if alone is None or any(b.startswith("!error") for b in alone):
+                return fails  # confirmation unavailable: keep the failure as found
+            kept = [f for f in fails if f.bucket in alone]
+            for f in kept:
+                confirmed.setdefault(f.bucket, case)
+            order_dependent.extend((f, case) for f in fails if f.bucket not in alone)
+            return kept
+        # confirmation budget used up: count further failures of confirmed buckets against their self-contained case,
+        # everything else is treated as possibly order dependent
+        for f in fails:
+            if f.bucket in confirmed:
+                ctx.fail(f, confirmed[f.bucket])
+            else:
+                order_dependent.append((f, case))
+        return []
+
     S.selfcheck_pools()
     # sampled groups first (bounded by count), then the enumeration (bounded by its size); the wall budget only ends either early
     # (the groups get at most 45% of the shard's wall budget so that a loaded machine cannot starve the enumeration)
@@ -410,7 +646,7 @@ def run_shard(ctx) -> None:
         strat = _hyp_strategy(ctx)
         while done < total and not ctx.out_of_budget():
             n = min(500, total - done)
-            ctx.run_hypothesis(strat, check_case, n, describe=describe, salt="groups" + (str(k) if k else ""))
+            ctx.run_hypothesis(strat, searched_check, n, describe=describe, salt="groups" + (str(k) if k else ""))
             done += n
             k += 1
     finally:
@@ -430,13 +666,11 @@ def run_shard(ctx) -> None:
             if ctx.out_of_budget():
                 return
             m = {"kind": "sig", **shape, "ann": ann}
-            from vp.common.harness import run_check
-
-            fails = run_check(check_case, m)
+            fails = searched_check(m)
             text = f"({S.render_params(m)}){S.render_returns(m)}"
             nt = S.nontrivial(m)
             feats = ["sig:" + f for f in S.features(m)]
-            renderings = DEF_RENDERINGS + (LAMBDA_RENDERINGS if ann == 0 else ())
+            renderings = DEF_RENDERINGS + (LAMBDA_RENDERINGS if ann == 0 else (QUOTED_RENDERING,))
             for r in renderings:
                 sample = None
                 if r == "def" and idx % 1009 == 17 and len(ctx.res.samples) < 2:
